@@ -50,7 +50,7 @@ for m in sorted(glob.glob(os.path.join(ROOT, "seeded", "*", "meta.json"))):
 seed_table = "\n".join(out)
 
 out = ["| check | tier, seed | evaluations | distinct non-trivial | event counters | shards | configurations | wall (s) | verdict |", "|---|---|---|---|---|---|---|---|---|"]
-for f in sorted(glob.glob(os.path.join(ROOT, "evidence", "C*.json"))):
+for f in sorted(glob.glob(os.path.join(ROOT, "evidence", "C*.json"))) + sorted(glob.glob(os.path.join(ROOT, "evidence", "thorough", "C*.json"))):
     e = json.load(open(f))
     c = e["coverage"]
     out.append("| %s | %s, %s | %s | %s | %d | %s | %s | %s | %s |" % (
